@@ -46,10 +46,28 @@ def handleOptimize : List Sexp → Sexp
     | none => .list [.atom "bad-request"]
   | _ => .list [.atom "bad-request"]
 
+/-- call logs are compared as rendered (floats by bit pattern: `-0.0` and `0.0` are different arguments) -/
 def logEq : List (String × List Val) → List (String × List Val) → Bool
   | [], [] => true
-  | (n, as) :: xs, (m, bs) :: ys => n == m && Val.deepEqList as bs && logEq xs ys
+  | (n, as) :: xs, (m, bs) :: ys =>
+    n == m && (Sexp.list (as.map Val.toSexp)).toStr == (Sexp.list (bs.map Val.toSexp)).toStr && logEq xs ys
   | _, _ => false
+
+/-- a range with literal bounds more than 2e6 apart (the reference evaluator would build it before it
+    checks the budget; the driver refuses to) -/
+partial def hugeRange : Node → Bool
+  | .binary _ op l r =>
+    (op == ".." && (match l, r with
+      | .int _ a, .int _ b => b - a > 2000000
+      | _, .int _ b => b > 2000000
+      | _, _ => false)) || hugeRange l || hugeRange r
+  | .unary _ _ x | .prop _ x _ _ | .closure _ x => hugeRange x
+  | .matches _ _ l r | .index _ l r | .pair _ l r => hugeRange l || hugeRange r
+  | .slice _ x f t => hugeRange x || (f.map hugeRange).getD false || (t.map hugeRange).getD false
+  | .method _ x _ args _ => hugeRange x || args.any hugeRange
+  | .func _ _ args _ | .builtin _ _ args | .array _ args | .map _ args => args.any hugeRange
+  | .cond _ a b d => hugeRange a || hugeRange b || hugeRange d
+  | _ => false
 
 def resSexp : R Val → Sexp
   | .ok v => .list [.atom "ok", v.toSexp]
@@ -69,6 +87,11 @@ def handleOptspec : List Sexp → Sexp
       let g : Opt.Guard := fun p nd => match p, nd with
         | .fold, .array .. => foldArrays.asBool.getD true
         | _, _ => true
+      -- constant bounds become literals under the model's fold pass
+      let folded := match Opt.repeatPass fl.walkSliceNode (Opt.foldRule fl optWorld) Opt.foldWalks n with
+        | .ok n' => n'
+        | .error _ => n
+      if hugeRange folded then .list [.atom "skipped"] else
       let ur := Spec.run c none n
       let u := ur.1
       match Opt.optimizeWith g fl fns optWorld n with
